@@ -41,6 +41,8 @@ func fbb.parseProposalAnswer(str, props, l) (err)
   loop 0 invariant held-is-accepted [C05]: i > 0 && IsHeld(c) ==> i <= len(props) && props[i-1].answer == '+'
   loop 0 invariant known-char [C05]: i > 0 ==> IsAccept(c) || IsOffset(c) || IsReject(c) || IsLater(c) || IsHeld(c)
   loop 0 invariant offset-range [C05]: i > 0 && IsOffset(c) ==> i <= len(props) && 0 <= props[i-1].offset && props[i-1].offset <= ProtocolOffsetSizeLimit
+  # the offset of an 'A'/'!' answer is the whole run of digits that follows it
+  call strconv.Atoi requires maximal-digit-run [C05 C01]: same($0, str[0:idx]) && idx >= 1 && (idx == len(str) || str[idx] < '0' || str[idx] > '9')
   at return#2 requires rejects-only-unknown [C05]: !(IsAccept(c) || IsOffset(c) || IsReject(c) || IsLater(c) || IsHeld(c))
   loop 1 invariant digits: 0 <= idx && idx <= len(str) && forall k :: 0 <= k && k < idx ==> '0' <= str[k] && str[k] <= '9'
   # every answer consumes at least one character of the line: the parser cannot spin
@@ -175,6 +177,8 @@ ghost var gFileHdr string
 func fbb.(*Message).SetBodyWithCharset(m, charset, body) (err)
   props C09 C18
   requires msg: m != nil && m.Header != nil
+  # the body is translated to the very charset the Content-Type header declares
+  call fbb.StringToBody requires declared-charset: same($0, body) && streq($1, DefaultCharset)
   call fbb.StringToBody set gBodyBytes := $r0
   call fmt.Sprintf requires body-length: $0 == "%d" && len($1) == 1 && unbox($1[0]) == len(gBodyBytes)
   call fmt.Sprintf set gLenStr := $r0
@@ -255,7 +259,7 @@ ghost var gSprintf string
 fn slr(String, String) String
 
 func fbb.secureLoginResponse(challenge, password) (r)
-  props C16
+  props C16 C05
   mode bv
   call md5.Sum requires payload-length: len($0) == len(challenge) + len(password) + 64
   call md5.Sum requires payload-challenge: forall i :: 0 <= i && i < len(challenge) ==> $0[i] == challenge[i]
